@@ -1,3 +1,7 @@
+pub mod c01;
+pub mod c02;
+pub mod c03;
 pub mod c06;
 pub mod c17;
 pub mod c20;
+pub mod calibration;
